@@ -243,7 +243,7 @@ def gen_alphas(rng, code, a0, n_random, single=False):
             # 0 is a breakpoint of codes 0 and 1 only; elsewhere tiny (not denormal) values instead of its ulp neighbours
             out += [0.0, 2.0 ** -30, -2.0 ** -30, 2.0 ** -20, -2.0 ** -20]
             continue
-        out += [bp] + [nxt(bp, k, single) for k in (1, 2, -1, -2)]
+        out += [bp] + [nxt(bp, k, single) for k in ((1, -1) if single else (1, 2, -1, -2))]
     core_hi = a0 if code == '4' else 1.0
     for _ in range(n_random):
         out.append(rng.uniform(-core_hi, core_hi))
@@ -264,8 +264,10 @@ def point_batches(rng, nsets, per_set, n_random, single=False):
             for _ in range(nsets if a0 == 1 else max(1, nsets // 2)):
                 ts = gen_triples(rng, per_set, single)
                 rng.shuffle(ts)
-                half = max(1, per_set // 2)
-                hs.append([ts[:half], ts[half:2 * half]])
+                if per_set % 2 or per_set < 2:
+                    hs.append([[t] for t in ts])                # per_set histograms of one bin
+                else:
+                    hs.append([ts[:per_set // 2], ts[per_set // 2:]])
                 rows.append(gen_alphas(rng, code, float(a0), n_random, single))
             m = min(len(r) for r in rows)
             rows = [r[:m] for r in rows]
@@ -375,15 +377,46 @@ Goal True.
 def interval_goal(i, key, ref, eps):
     code, a0, lo, nom, hi, al = key
     args = ('%s ' % rlit(a0) if code == '4' else '') + ' '.join(rlit(x) for x in (lo, nom, hi, al))
-    return ('tryif (assert (Rabs (slow_code%s RT %s - %s) <= %s) by (unfold slow_code%s; prep; interval with (i_prec 90))) '
+    return ('tryif (assert (Rabs (slow_code%s RT %s - %s) <= %s) by (unfold slow_code%s; prep; interval with (i_prec 70))) '
             'then idtac "C03OK %d" else idtac "C03FAIL %d".\n' % (code, args, rlit(ref), rlit(eps), code, i, i))
 
 
-def run_interval(ctx, items, per_file=24):
-    """items: list of (key, ref Fraction).  Returns dict index -> 'ok' | 'fail' | 'error'."""
+def _sha(path):
+    import hashlib
+    try:
+        return hashlib.sha256(open(path, 'rb').read()).hexdigest()
+    except OSError:
+        return 'missing'
+
+
+def run_interval(ctx, items, per_file=12):
+    """items: list of (key, ref Fraction).  Returns dict index -> 'ok' | 'fail' | 'error'.
+    Verdicts are cached under .work/cache-C03 keyed by the sha256 of (goal text, header, TNum.v, Num.v, gen/InterpGen.v):
+    identical text checked against identical definitions has the identical verdict."""
+    import hashlib
     d = os.path.join(ctx.work, 'interval')
     os.makedirs(d, exist_ok=True)
+    dep = '|'.join(_sha(os.path.join(core.COQ, p)) for p in ('Num.v', 'TNum.v', 'gen/InterpGen.v')) + IV_HEADER
+    cpath = os.path.join(core.WORK, 'cache-C03', 'interval.json')
+    try:
+        cache = json.load(open(cpath)) if os.environ.get('VERIF_NO_CACHE') != '1' else {}
+    except (OSError, ValueError):
+        cache = {}
+    goal_text, hashes, cached = {}, {}, {}
+    for i, (key, ref) in enumerate(items):
+        eps = max(abs(ref), F(1, 10 ** 30)) / 10 ** 13
+        goal_text[i] = interval_goal(0, key, ref, eps)
+        hashes[i] = hashlib.sha256((dep + goal_text[i]).encode()).hexdigest()
+        if cache.get(hashes[i]) == 'ok':
+            cached[i] = 'ok'
+    ctx.coverage['interval_cached'] = len(cached)
+    todo = [i for i in range(len(items)) if i not in cached]
+    full_items = items
+    res_all = dict(cached)
+    if not todo:
+        return res_all
     files = []
+    items = [full_items[i] for i in todo]
     # spread the expensive goals (code-4 core) evenly
     order = sorted(range(len(items)), key=lambda i: (items[i][0][0] == '4' and abs(items[i][0][5]) < items[i][0][1], i))
     nfiles = max(1, (len(items) + per_file - 1) // per_file)
@@ -418,7 +451,20 @@ def run_interval(ctx, items, per_file=24):
     with ThreadPoolExecutor(max_workers=core.NCPU) as ex:
         for r in ex.map(one, files):
             res.update(r)
-    return res
+    for j, i in enumerate(todo):
+        res_all[i] = res.get(j, 'error:no verdict')
+        if res_all[i] == 'ok':
+            cache[hashes[i]] = 'ok'
+    try:
+        os.makedirs(os.path.dirname(cpath), exist_ok=True)
+        if len(cache) > 200000:
+            cache = {}
+        tmp = cpath + '.%d.tmp' % os.getpid()
+        json.dump(cache, open(tmp, 'w'))
+        os.replace(tmp, cpath)
+    except OSError:
+        pass
+    return res_all
 
 
 # =========================================================================================
@@ -609,8 +655,8 @@ def run(ctx):
     # ---- implementation runs -------------------------------------------------------------
     bks = backends_for(ctx)
     corpus = load_corpus()
-    b64 = corpus + point_batches(rng, ctx.n(2, 8), ctx.n(4, 8), ctx.n(5, 14))
-    b32 = point_batches(rng, ctx.n(1, 3), ctx.n(4, 8), ctx.n(3, 8), single=True)
+    b64 = corpus + point_batches(rng, ctx.n(2, 5), ctx.n(3, 6), ctx.n(4, 10))
+    b32 = point_batches(rng, ctx.n(1, 2), ctx.n(3, 4), ctx.n(2, 5), single=True)
     other = [b for b in bks if b[0] != 'numpy']
     hist = history_batches(rng, ctx.n(15, 100), [b for b in other if b[1] == '64b'])
     obs = {}       # key -> list of (value, tag)
